@@ -295,6 +295,12 @@ def run(tier: str, seed: int) -> int:
     run_.assumptions = ["numpy complex exp as the evaluator of the EXP atom", "tolerance 1e-11 (1+|Im z|)",
                         "fft/ifft conventions (bound by C04) used to build Nyquist-free states and the analytic solution"]
     shutil.rmtree(work, ignore_errors=True)
+    # the composed machine (spec/Session.tla): multi-step API sessions generated by TLC -simulate, replayed call by call; this check
+    # reports the mismatches of the operations it owns (advect)
+    from .. import session
+    import jax.numpy as _jnp
+    import exponax as _ex
+    session.run_for(run_, tier, seed, _ex, _jnp, ['advect'], PID)
     return run_.finish()
 
 
